@@ -41,6 +41,15 @@ def choose_form(rng, topics, idx=None, allow_all=True, hidden=()):
                 d += 'x'
             used.add(d)
             out.append((t, d))
+        if len(out) >= 2 and rng.random() < 0.3:
+            # destinations that are themselves names of other subscribed topics: a cycle (a>b;b>a) or a chain (a>b;b>c)
+            srcs = [t for t, _ in out]
+            dsts = srcs[1:] + [srcs[0] if rng.random() < 0.5 else srcs[-1] + '_c']
+            while dsts[-1] != srcs[0] and dsts[-1] in topics:
+                dsts[-1] += 'x'
+            out = list(zip(srcs, dsts))
+            if rng.random() < 0.5:
+                out.reverse()
         return out + [(h, h) for h in extra]
     if r < 0.3 and allow_all:
         return 'all'      # caller guarantees disjoint names in that case
